@@ -21,6 +21,19 @@ func genC06(t *rapid.T) c06Case {
 	c.BadParams = ""
 	c.Stream.InitOutcome = "ok"
 	c.Stream.InitErr = nil
+	// longer scripts: prepend plain emits so failures and cancels land strictly inside the stream
+	for len(c.Stream.Turns) < 5 && rapid.IntRange(0, 2).Draw(t, "moreturns") != 0 {
+		c.Stream.Turns = append([]lib.TurnSpec{{Act: "emit", Rows: rapid.IntRange(1, 2).Draw(t, "mrows")}}, c.Stream.Turns...)
+	}
+	if c.ConcreteKind() == "producer" {
+		if c.Ticks < len(c.Stream.Turns) && rapid.Bool().Draw(t, "enoughticks") {
+			c.Ticks = len(c.Stream.Turns) + 1
+		}
+	} else if len(c.Inputs) > 0 {
+		for len(c.Inputs) < len(c.Stream.Turns) && rapid.Bool().Draw(t, "moreinputs") {
+			c.Inputs = append(c.Inputs, lib.InputSpec{Type: c.Inputs[0].Type, Vals: []int64{int64(len(c.Inputs))}})
+		}
+	}
 	if rapid.Bool().Draw(t, "rid?") {
 		c.Opts.RequestID = "rid-" + lib.GenString(t, "rid")
 	}
